@@ -177,3 +177,14 @@ _mk("C19",
                "its positional/named argument, its default, or the variadic tail in order. Tied to funcs.go by the exhaustive enumeration.",
     level_note="Names are ASCII in model and generator (unicode.IsLetter/IsDigit on non-ASCII runes is Go's); typed getters (GetParamInt, ...) are not modelled.",
     exhaustive=True)
+
+_mk("C07",
+    ["Platypus.Model.Unquote"],
+    rule="string literals: every body over the alphabet {\", ', `, \\, newline, NUL, a, 0, 7, x, u, e-acute, emoji} up to length 3 (quick) / 5 (thorough) inside each of the five quote styles; every escape form with valid and invalid digit counts and code points, "
+         "with prefixes/suffixes; random longer strings; integers at every power of two +-1 and power of ten +-1 in decimal and both hexadecimal spellings with signs (-, +, --, '- '), malformed numbers; "
+         "random float64 values round-tripped through three spellings; true/false/nil/null (and other keywords) in every letter case; one case per batch of literals; "
+         "each literal is parsed by the real parser as `x = <lit>`; compared with the model (lexer + unquoter + number rules) and with the declarative denotation; strict",
+    technique="Lean 4 model of lexer+unquoter+number folding against an independent declarative denotation (theorems pending) + exhaustive literal-alphabet correspondence",
+    level_text="The literal's value as parsed by the implementation is compared with the model and with an independent grammar of Go-style escapes/raw forms, canonical decimal/hexadecimal integers and case-insensitive keywords, exhaustively over the alphabet.",
+    level_note="strconv.ParseFloat is an engine (oracle). Leading-zero integers follow Go base-0 rules (010 = 8): reported, not judged.",
+    extra_tb=["strconv.ParseFloat (oracle)"], exhaustive=True)
